@@ -29,6 +29,7 @@ type cfg struct {
 	// (so that room is made - and a writability event raised - while a writer is still inside its
 	// call), not only when the system is idle
 	reader bool
+	deep   int    // origin "deep": number of queue entries behind the first remainder
 	origin string // onopen | ondata | after | race | sendfile | two | rw | ondial | again | ondata-again | dial-again | dial-then
 	p, d   int
 }
@@ -182,6 +183,21 @@ func body(c cfg) func() {
 				vsched.GoNamed("peer-sender", func() { peer.Write([]byte{1}) })
 			case "again":
 				vsched.GoNamed("writer", func() { write(c.k + 3) })
+			case "deep":
+				// a backlog of many small entries (file ranges and buffers alternate, so that
+				// nothing is merged), all of which fit into the socket at once when the peer
+				// has drained it: one flush pass has to empty the queue or leave the
+				// registration such that another event follows
+				vsched.GoNamed("writer", func() {
+					write(c.k + 1)
+					for i := 0; i < c.deep; i++ {
+						if i%2 == 0 {
+							sendfile(1)
+						} else {
+							write(1)
+						}
+					}
+				})
 			case "rw":
 				// inbound traffic is being handled while another thread creates a backlog
 				vsched.GoNamed("peer-sender", func() { peer.Write([]byte{1}); peer.Write([]byte{2}) })
@@ -308,6 +324,24 @@ func build(tier string) []*vkit.Scenario {
 							NonTrivial: func(mm map[string]int) bool { return mm["backlog_execs"] > 0 }})
 					}
 				}
+			}
+		}
+	}
+	// deep backlogs: more queue entries than any per-pass limit a flush could have
+	for _, m := range ekit.Modes {
+		for _, unix := range []bool{false, true} {
+			for _, kd := range [][2]int{{16, 12}, {6, 12}, {40, 33}} {
+				if !thorough && (kd[0] == 40 || (unix && kd[0] == 6)) {
+					continue
+				}
+				p, d := 1, 1
+				if thorough {
+					p, d = 2, 2
+				}
+				c := cfg{mode: m, unix: unix, k: kd[0], deep: kd[1], origin: "deep", p: p, d: d}
+				out = append(out, &vkit.Scenario{Name: c.name() + fmt.Sprintf(" entries=%d", kd[1]+1), Body: body(c), Check: check, P: p, D: d,
+					Counters: func() map[string]int { return lastCounters }, Outcome: func() string { return lastOutcome },
+					NonTrivial: func(mm map[string]int) bool { return mm["backlog_execs"] > 0 }})
 			}
 		}
 	}
